@@ -1783,7 +1783,7 @@ namespace awkward {
         // }
       }
       else {
-        return (std::string("at ") + path + std::string(" (") + raw->classname()
+        return (std::string("at ") + path + std::string(" (") + content.get()->classname()
                 + std::string("): __array__ = \"char\" only allowed for NumpyArray"));
       }
       return std::string("");
@@ -1838,7 +1838,7 @@ namespace awkward {
         // }
       }
       else {
-        return (std::string("at ") + path + std::string(" (") + raw->classname()
+        return (std::string("at ") + path + std::string(" (") + content.get()->classname()
                 + std::string("): __array__ = \"byte\" only allowed for NumpyArray"));
       }
       return std::string("");
